@@ -22,7 +22,8 @@ JudgeBind(o) ==
          \cup (IF o.code = 0 /\ o.n = 1 /\ ObsMsg(o) # b.msg THEN {"C07.BindingFollowsRule"} ELSE {})
 
 JudgeChain(o) ==
-    (IF o.code = 0 /\ o.finalid # 1 THEN {"C07.RoundTripIdentity"} ELSE {})
+    \* (the same fact is C01's "the backend observes exactly the message the client sent" for REST targets)
+    (IF o.code = 0 /\ o.finalid # 1 THEN {"C07.RoundTripIdentity", "C01.RestTargetMessageIntact"} ELSE {})
     \cup (IF o.scn.msgkind \in StrictKinds /\ o.code # 0 THEN {"C07.ExpressibleMessageFails"} ELSE {})
     \cup (IF o.midn >= 1 /\ o.midhttp # RuleInfo(o.scn.rule).http THEN {"C07.RequestLineFromRule"} ELSE {})
     \cup (IF o.midn >= 1 /\ ~o.midpath THEN {"C07.PathFromTemplate"} ELSE {})
